@@ -2,8 +2,10 @@
 Colon modes (C20), copy_all (C11) and re-parsing (C14).
 
 The first part is a small piece of matcher metatheory needed for `C20_no_colons_cautious` as stated: a pattern without
-look-around / anchors (`Rx.anchorFree`) that matched a span of a text also matches that span taken alone
-(`Rx.all_trunc`), so that `SecUnpacker` always finds at least one section number in the text of a `multisec_regex`
+look-around / anchors other than negative look-aheads of ONE character class (`Rx.truncOK`; `multisec_regex` has
+`\s*(?!\s)` and `(?:\.|(?!\.))` since the backtracking fix) that matched a span of a text also matches that span
+followed by any prefix of what originally followed it — in particular the span taken alone (`Rx.all_trunc`): cutting the
+text after the match can only make such a look-ahead easier to satisfy.  Priorities may change, existence does not, so that `SecUnpacker` always finds at least one section number in the text of a `multisec_regex`
 match (`multisec_match_unpacks`) and the `sec_nums[0]` IndexError of the colon-requiring pass cannot happen.
 -/
 import PyTRS.Props.C11
@@ -19,7 +21,7 @@ open PyTRS.Obj PyTRS.Plss
 namespace Modes
 open PyTRS.Unpack
 
-/-! ## matcher metatheory: tail independence of look-around-free patterns -/
+/-! ## matcher metatheory: truncation of the tail for patterns whose only look-around is `(?!cls)` -/
 
 /-- every state in the list of successes is reached by consuming a prefix of the remaining text -/
 theorem Rx.all_ext (r : Rx) (s s' : St) (h : s' ∈ r.all s) : St.Ext s s' := by
@@ -53,9 +55,18 @@ theorem repAll_ext (body : St → List St) (hb : ∀ s s', s' ∈ body s → St.
         · simp at h; subst h; exact St.Ext.refl _
       · simp at h; subst h; exact St.Ext.refl _
 
-/-- the consumed string can be matched again whatever follows it -/
+/-- no construct that looks outside the matched span, except negative look-aheads of a single character class
+    (which can only become easier to satisfy when the text after the match is cut) -/
+def _root_.PyTRS.Rx.truncOK : Rx → Bool
+  | .eps | .fail | .chr _ => true
+  | .seq a b | .alt a b => a.truncOK && b.truncOK
+  | .rep r _ _ | .grp _ r => r.truncOK
+  | .nahead (.chr _) => true
+  | .ahead _ | .nahead _ | .behind _ | .wordb _ | .eos | .bos => false
+
+/-- the consumed string can be matched again when it is followed by any PREFIX `d` of the original continuation -/
 def Trunc (f : St → List St) : Prop :=
-  ∀ s s', s' ∈ f s → ∀ c, s.rest = c ++ s'.rest → ∀ d p n cs,
+  ∀ s s', s' ∈ f s → ∀ c, s.rest = c ++ s'.rest → ∀ d e, s'.rest = d ++ e → ∀ p n cs,
     ∃ s'' ∈ f ⟨p, c ++ d, n, cs⟩, s''.rest = d ∧ s''.pos = n + c.length
 
 /-- the `last` markers of two runs are at the same distance from the cursor -/
@@ -76,15 +87,15 @@ theorem LastRel.shift {l1 l2 x y} (h : LastRel l1 l2 x y) (k : Nat) : LastRel l1
 theorem repAll_trunc (body : St → List St) (hb : ∀ s s', s' ∈ body s → St.Ext s s') (ht : Trunc body)
     (lo : Nat) (hi : Option Nat) :
     ∀ (fuel₁ count : Nat) (last : Option Nat) (s s' : St), s' ∈ repAll body lo hi fuel₁ count last s →
-      ∀ c, s.rest = c ++ s'.rest → ∀ (fuel₂ : Nat) (last₂ : Option Nat) (d : List Char) (p : Option Char) (n : Nat)
-        (cs : List (Nat × Nat × Nat)), LastRel last last₂ s.pos n →
+      ∀ c, s.rest = c ++ s'.rest → ∀ (fuel₂ : Nat) (last₂ : Option Nat) (d e : List Char), s'.rest = d ++ e →
+        ∀ (p : Option Char) (n : Nat) (cs : List (Nat × Nat × Nat)), LastRel last last₂ s.pos n →
         (lo - count) + c.length + (if last = some s.pos then 1 else 2) ≤ fuel₂ →
         ∃ s'' ∈ repAll body lo hi fuel₂ count last₂ ⟨p, c ++ d, n, cs⟩, s''.rest = d ∧ s''.pos = n + c.length := by
   intro fuel₁
   induction fuel₁ with
   | zero => intro count last s s' h; simp [repAll] at h
   | succ f ih =>
-    intro count last s s' h c hc fuel₂ last₂ d p n cs hrel hfuel
+    intro count last s s' h c hc fuel₂ last₂ d e hde p n cs hrel hfuel
     have hbeq := hrel.beq
     obtain ⟨g, rfl⟩ : ∃ g, fuel₂ = g + 1 := ⟨fuel₂ - 1, by split at hfuel <;> omega⟩
     rw [repAll] at h ⊢
@@ -101,9 +112,10 @@ theorem repAll_trunc (body : St → List St) (hb : ∀ s s', s' ∈ body s → S
       have hcc : c = c1 ++ c2 := by
         apply List.append_cancel_right (bs := s'.rest)
         rw [← hc, hc1, hc2, List.append_assoc]
-      obtain ⟨t1, ht1, hr1, hq1⟩ := ht s s1 h1 c1 hc1 (c2 ++ d) p n cs
+      obtain ⟨t1, ht1, hr1, hq1⟩ := ht s s1 h1 c1 hc1 (c2 ++ d) e
+        (by rw [hc2, hde, List.append_assoc]) p n cs
       have hrel' : LastRel lastA lastB s1.pos t1.pos := by rw [hp1, hq1]; exact hr _
-      obtain ⟨t2, ht2, hr2, hq2⟩ := ih cnt lastA s1 s' h2 c2 hc2 g lastB d t1.prev t1.pos t1.caps hrel'
+      obtain ⟨t2, ht2, hr2, hq2⟩ := ih cnt lastA s1 s' h2 c2 hc2 g lastB d e hde t1.prev t1.pos t1.caps hrel'
         (hf c1 c2 hcc hp1)
       refine ⟨t2, List.mem_flatMap.mpr ⟨t1, ?_, ?_⟩, hr2, ?_⟩
       · rw [hcc, List.append_assoc]; exact ht1
@@ -161,10 +173,10 @@ theorem repAll_trunc (body : St → List St) (hb : ∀ s s', s' ∈ body s → S
         simp at h
         exact ⟨_, List.mem_singleton.mpr rfl, stay h⟩
 
-theorem Rx.all_trunc (r : Rx) (haf : r.anchorFree = true) : Trunc r.all := by
+theorem Rx.all_trunc (r : Rx) (haf : r.truncOK = true) : Trunc r.all := by
   induction r with
   | eps =>
-    intro s s' h c hc d p n cs
+    intro s s' h c hc d e hde p n cs
     simp only [Rx.all, List.mem_singleton] at h
     subst h
     have : c = [] := by
@@ -174,7 +186,7 @@ theorem Rx.all_trunc (r : Rx) (haf : r.anchorFree = true) : Trunc r.all := by
     exact ⟨_, List.mem_singleton.mpr rfl, by simp, by simp⟩
   | fail => intro s s' h; simp [Rx.all] at h
   | chr cs0 =>
-    intro s s' h c hc d p n cs
+    intro s s' h c hc d e hde p n cs
     simp only [Rx.all] at h
     split at h
     · rename_i x t hx
@@ -193,8 +205,8 @@ theorem Rx.all_trunc (r : Rx) (haf : r.anchorFree = true) : Trunc r.all := by
       · simp at h
     · simp at h
   | seq a b iha ihb =>
-    simp only [Rx.anchorFree, Bool.and_eq_true] at haf
-    intro s s' h c hc d p n cs
+    simp only [Rx.truncOK, Bool.and_eq_true] at haf
+    intro s s' h c hc d e hde p n cs
     simp only [Rx.all] at h
     obtain ⟨s1, h1, h2⟩ := List.mem_flatMap.mp h
     obtain ⟨c1, hc1, hp1⟩ := Rx.all_ext a _ _ h1
@@ -202,8 +214,9 @@ theorem Rx.all_trunc (r : Rx) (haf : r.anchorFree = true) : Trunc r.all := by
     have hcc : c = c1 ++ c2 := by
       apply List.append_cancel_right (bs := s'.rest)
       rw [← hc, hc1, hc2, List.append_assoc]
-    obtain ⟨t1, ht1, hr1, hq1⟩ := iha haf.1 s s1 h1 c1 hc1 (c2 ++ d) p n cs
-    obtain ⟨t2, ht2, hr2, hq2⟩ := ihb haf.2 s1 s' h2 c2 hc2 d t1.prev t1.pos t1.caps
+    obtain ⟨t1, ht1, hr1, hq1⟩ := iha haf.1 s s1 h1 c1 hc1 (c2 ++ d) e
+      (by rw [hc2, hde, List.append_assoc]) p n cs
+    obtain ⟨t2, ht2, hr2, hq2⟩ := ihb haf.2 s1 s' h2 c2 hc2 d e hde t1.prev t1.pos t1.caps
     refine ⟨t2, ?_, hr2, ?_⟩
     · simp only [Rx.all]
       refine List.mem_flatMap.mpr ⟨t1, ?_, ?_⟩
@@ -212,35 +225,61 @@ theorem Rx.all_trunc (r : Rx) (haf : r.anchorFree = true) : Trunc r.all := by
         rw [this]; exact ht2
     · rw [hq2, hq1, hcc, List.length_append]; omega
   | alt a b iha ihb =>
-    simp only [Rx.anchorFree, Bool.and_eq_true] at haf
-    intro s s' h c hc d p n cs
+    simp only [Rx.truncOK, Bool.and_eq_true] at haf
+    intro s s' h c hc d e hde p n cs
     simp only [Rx.all] at h ⊢
     rcases List.mem_append.mp h with h | h
-    · obtain ⟨t, ht, hr⟩ := iha haf.1 s s' h c hc d p n cs
+    · obtain ⟨t, ht, hr⟩ := iha haf.1 s s' h c hc d e hde p n cs
       exact ⟨t, List.mem_append_left _ ht, hr⟩
-    · obtain ⟨t, ht, hr⟩ := ihb haf.2 s s' h c hc d p n cs
+    · obtain ⟨t, ht, hr⟩ := ihb haf.2 s s' h c hc d e hde p n cs
       exact ⟨t, List.mem_append_right _ ht, hr⟩
   | rep r lo hi ih =>
-    simp only [Rx.anchorFree] at haf
-    intro s s' h c hc d p n cs
+    simp only [Rx.truncOK] at haf
+    intro s s' h c hc d e hde p n cs
     simp only [Rx.all] at h ⊢
-    refine repAll_trunc r.all (Rx.all_ext r) (ih haf) lo hi _ 0 none s s' h c hc _ none d p n cs trivial ?_
+    refine repAll_trunc r.all (Rx.all_ext r) (ih haf) lo hi _ 0 none s s' h c hc _ none d e hde p n cs trivial ?_
     simp only [List.length_append]
     have : (if (none : Option Nat) = some s.pos then 1 else 2) = 2 := by simp
     rw [this]; omega
   | grp i r ih =>
-    simp only [Rx.anchorFree] at haf
-    intro s s' h c hc d p n cs
+    simp only [Rx.truncOK] at haf
+    intro s s' h c hc d e hde p n cs
     simp only [Rx.all] at h ⊢
     obtain ⟨s1, h1, rfl⟩ := List.mem_map.mp h
-    obtain ⟨t, ht, hr⟩ := ih haf s s1 h1 c hc d p n cs
+    obtain ⟨t, ht, hr⟩ := ih haf s s1 h1 c hc d e hde p n cs
     exact ⟨_, List.mem_map.mpr ⟨t, ht, rfl⟩, hr⟩
-  | ahead r _ => simp [Rx.anchorFree] at haf
-  | nahead r _ => simp [Rx.anchorFree] at haf
-  | behind cs0 => simp [Rx.anchorFree] at haf
-  | wordb w => simp [Rx.anchorFree] at haf
-  | eos => simp [Rx.anchorFree] at haf
-  | bos => simp [Rx.anchorFree] at haf
+  | ahead r _ => simp [Rx.truncOK] at haf
+  | nahead r _ =>
+    cases r with
+    | chr cs0 =>
+      -- the look-ahead saw either nothing or a character that is still there in the truncated text
+      intro s s' h c hc d e hde p n cs
+      simp only [Rx.all] at h
+      have hs : s' = s := by
+        revert h
+        cases s.rest with
+        | nil => simp
+        | cons x t => by_cases hx : cs0.mem x = true <;> simp [hx]
+      subst hs
+      have hc0 : c = [] := by
+        have := congrArg List.length hc
+        simpa using this
+      subst hc0
+      refine ⟨⟨p, d, n, cs⟩, ?_, rfl, rfl⟩
+      simp only [Rx.all, List.nil_append]
+      cases d with
+      | nil => simp
+      | cons x t =>
+        have hx : cs0.mem x = false := by
+          revert h
+          rw [hde]
+          by_cases hx : cs0.mem x = true <;> simp [hx]
+        simp [hx]
+    | _ => simp [Rx.truncOK] at haf
+  | behind cs0 => simp [Rx.truncOK] at haf
+  | wordb w => simp [Rx.truncOK] at haf
+  | eos => simp [Rx.truncOK] at haf
+  | bos => simp [Rx.truncOK] at haf
 
 
 /-- a match reported by `scan` was found by `matchHere` at some cursor inside the remaining text -/
@@ -312,15 +351,29 @@ theorem matchHere_group0 (r : Rx) (text : List Char) (q : Nat) (prev : Option Ch
 
 
 
-theorem multisec_anchorFree : Unpack.multisec.rx.anchorFree = true := by decide
+theorem multisec_truncOK : Unpack.multisec.rx.truncOK = true := by decide
 
-/-- a text that a lookaround-free pattern has matched as a whole is found again by `search` on that text alone -/
-theorem search_group0_isSome (r : Rx) (haf : r.anchorFree = true) (text : List Char) (mo : Match)
+/-- (the generalisation is needed: the regenerated pattern does contain negative look-aheads) -/
+theorem multisec_not_anchorFree : Unpack.multisec.rx.anchorFree = false := by decide
+
+/-- `truncOK` extends `anchorFree` -/
+theorem Rx.truncOK_of_anchorFree (r : Rx) (h : r.anchorFree = true) : r.truncOK = true := by
+  induction r with
+  | seq a b iha ihb | alt a b iha ihb =>
+    simp only [Rx.anchorFree, Bool.and_eq_true] at h
+    simp only [Rx.truncOK, Bool.and_eq_true]
+    exact ⟨iha h.1, ihb h.2⟩
+  | rep r lo hi ih | grp i r ih => exact ih h
+  | eps | fail | chr _ => rfl
+  | _ => simp [Rx.anchorFree] at h
+
+/-- a text that a `truncOK` pattern has matched as a whole is found again by `search` on that text alone -/
+theorem search_group0_isSome (r : Rx) (haf : r.truncOK = true) (text : List Char) (mo : Match)
     (h : mo ∈ r.finditer text) : (r.search (mo.group0 text) 0 (mo.group0 text).length).isSome = true := by
   rw [finditer_default] at h
   obtain ⟨q, prev, adv, hm⟩ := finditerAux_matchHere r text _ none 0 false mo (by simpa using h)
   obtain ⟨s', hs', hc⟩ := matchHere_group0 r text q prev adv mo hm
-  obtain ⟨t, ht, _, _⟩ := Rx.all_trunc r haf _ s' hs' (mo.group0 text) hc [] none 0 []
+  obtain ⟨t, ht, _, _⟩ := Rx.all_trunc r haf _ s' hs' (mo.group0 text) hc [] s'.rest rfl none 0 []
   simp only [List.append_nil] at ht
   have hmh : (matchHere r ⟨none, mo.group0 text, 0, []⟩ false).isSome = true := by
     rw [matchHere_eq, List.findSome?_isSome_iff]
@@ -364,7 +417,7 @@ theorem secLoop_working_ne (txt : Str) : ∀ (fuel e : Nat) (st : Unpack.SecLoop
 /-- every section match unpacks to at least one section number -/
 theorem multisec_match_unpacks (text : Str) (mo : Match) (h : mo ∈ Unpack.multisec.rx.finditer text) :
     (Unpack.unpackSections (mo.group0 text)).secList ≠ [] := by
-  obtain ⟨m', hm'⟩ := Option.isSome_iff_exists.mp (search_group0_isSome _ multisec_anchorFree text mo h)
+  obtain ⟨m', hm'⟩ := Option.isSome_iff_exists.mp (search_group0_isSome _ multisec_truncOK text mo h)
   unfold unpackSections
   simp only []
   intro hnil
@@ -549,7 +602,8 @@ theorem C20_no_colons_cautious (text layout : Str) (h : NoColons text) (hl : fir
   no_colons_cautious_of_unpacks text layout h hl (fun mo hmo => multisec_match_unpacks text mo hmo) r0 h0 hne
 
 /-- the `sec_nums[0]` IndexError of `findall_matching_sec` is unreachable: every `multisec_regex` match unpacks to at
-    least one section number (the pattern has no look-around, so the matched text alone is matched again) -/
+    least one section number (the pattern's only look-arounds are negative look-aheads of one character class, so the
+    matched text alone is matched again) -/
 theorem C20_sec_match_unpacks_nonempty (text : Str) (mo : Match) (h : mo ∈ Unpack.multisec.rx.finditer text) :
     (Unpack.unpackSections (mo.group0 text)).secList ≠ [] := multisec_match_unpacks text mo h
 
